@@ -26,10 +26,10 @@ var errInjected = errors.New("injected fault")
 type recHash struct{ buf []byte }
 
 func (h *recHash) Write(p []byte) (int, error) { h.buf = append(h.buf, p...); return len(p), nil }
-func (h *recHash) Sum(b []byte) []byte           { return append(b, h.buf...) }
-func (h *recHash) Reset()                        { h.buf = nil }
-func (h *recHash) Size() int                     { return len(h.buf) }
-func (h *recHash) BlockSize() int                { return 1 }
+func (h *recHash) Sum(b []byte) []byte         { return append(b, h.buf...) }
+func (h *recHash) Reset()                      { h.buf = nil }
+func (h *recHash) Size() int                   { return len(h.buf) }
+func (h *recHash) BlockSize() int              { return 1 }
 
 func bytesEq(a, b []byte) bool {
 	if len(a) != len(b) {
